@@ -9,6 +9,7 @@ CONSTANTS
   CopyOnHandOut = TRUE
   KeyedMemo = TRUE
   RejectKeeps = TRUE
+  OwnMaps = TRUE
 INVARIANT FitRepeatable
 INVARIANT PredStable
 INVARIANT StoredDqIsModelDq
@@ -17,5 +18,6 @@ INVARIANT RestoredModelsIndependent
 INVARIANT ResavedScalerIsOwn
 INVARIANT HandOutsAreCopies
 INVARIANT FitDependsOnItsOwnData
+INVARIANT RoutesWithItsOwnMaps
 PROPERTY DataImmutable
 PROPERTY PredictPure
